@@ -112,7 +112,7 @@ fn for_all_strings(alpha: &[&str], max: usize, mut f: impl FnMut(usize, &str)) {
     }
 }
 
-const ESC_ALPHA: &[&str] = &["<", ">", "&", "\"", "'", ";", "#", "a", "l", "t", "m", "p", " ", "é"];
+const ESC_ALPHA: &[&str] = &["<", ">", "&", "\"", "'", ";", "#", "a", "l", "t", "m", "p", " ", "é", "日", "😀"];
 const ESC_TOKENS: &[&str] = &[
     "&lt;", "&gt;", "&#39;", "&quot;", "&amp;", "&lt", "&gt", "&#39", "&quot", "&amp", "lt;", "gt;", "#39;", "quot;", "amp;",
     "&", ";", "<", ">", "\"", "'", "&#3", "&quo", "&&", "&#x27;", "&LT;", "x", "é", "&amp;amp;", "&apos;",
@@ -302,6 +302,11 @@ pub fn run(ctx: &mut Ctx) {
               "<!-->", "<script>alert(1)", "a > b < c", "<\u{17f}cript>x</\u{17f}cript>", "<style></script></style>"] {
         strip_case(ctx, &f, "corpus", s);
     }
+    // entities are text for strip_html: nothing may turn them into markup
+    for s in ["&lt;script&gt;alert(1)&lt;/script&gt;", "&lt;b&gt;", "<p>&lt;i&gt;x&lt;/i&gt;</p>", "&amp;lt;x&amp;gt;", "&lt;img src=x onerror=alert(1)&gt;",
+              "&#39;&quot;&amp;", "&lt;!-- c --&gt;", "a &lt; b &gt; c", "<p>&lt;p&gt;</p>"] {
+        strip_case(ctx, &f, "corpus-entities", s);
+    }
 
     // ---- escape / escape_once: the property's alphabet, exhaustively ----
     let esc_max = if thorough { 5 } else { 4 };
@@ -400,7 +405,7 @@ pub fn run(ctx: &mut Ctx) {
     let tag_tok_max = if thorough { 4 } else { 3 };
     for_all_strings(TAG_TOKENS, tag_tok_max, |len, s| strip_case(ctx, &f, &format!("strip-tok{}", len), s));
     for _ in 0..n_rand {
-        let s = random_string(&mut rng, &[TAG_ALPHA, TAG_TOKENS, ESC_ALPHA], 40);
+        let s = random_string(&mut rng, &[TAG_ALPHA, TAG_TOKENS, ESC_ALPHA, ESC_TOKENS], 40);
         strip_case(ctx, &f, "strip-rand", &s);
     }
     // case folding of the two word regexes, every scalar value at every letter position
